@@ -237,6 +237,13 @@ type srv struct {
 	port int // one address per server slot
 }
 
+func plainName(s *srv) string {
+	if s == nil {
+		return "nil"
+	}
+	return s.name
+}
+
 func optName(s *srv) string {
 	if s == nil {
 		return "None"
@@ -475,7 +482,11 @@ func genCase(r *lib.Rng, out *lib.Out, ci int) {
 			}
 			ops = append(ops, lib.App("ONext", reg, optName(failed)))
 			obs = append(obs, lib.App("mkObs", res, lib.Nat(after)))
-			trace = append(trace, fmt.Sprintf("next(failed=%s)->%s idx=%d", optName(failed), res, after))
+			gotName := "nil"
+			if got != nil {
+				gotName = got.ServerInfo().Name()
+			}
+			trace = append(trace, fmt.Sprintf("nextServerToTry(failed=%s) -> %s, tryIndex=%d", plainName(failed), gotName, after))
 		case k < 7: // connected to the server chosen last (or any)
 			s := last
 			if s == nil || r.Chance(1, 4) {
@@ -508,7 +519,7 @@ func genCase(r *lib.Rng, out *lib.Out, ci int) {
 			after, _ := pl.Cursor()
 			ops = append(ops, lib.App("OInFlight", optName(s)))
 			obs = append(obs, lib.App("mkObs", "None", lib.Nat(after)))
-			trace = append(trace, "inflight "+optName(s))
+			trace = append(trace, "setInFlight "+plainName(s))
 		}
 	}
 
